@@ -76,7 +76,7 @@ Definition lay1_str : lay1 :=
   Lay1 [] [] [] [] [] [] [] [] [] [] [] CRLF CRLF CRLF CRLF CRLF CRLF CRLF CRLF true (CRLF ++ CRLF).
 (** a body as the property describes it: from the first '<' to the last '>' *)
 Definition body_ok (b : text) : bool :=
-  match b with 60 :: _ => match rev b with 62 :: _ => true | _ => false end | _ => false end.
+  match b, rev b with c :: _, d :: _ => (c =? 60) && (d =? 62) | _, _ => false end.
 
 (** * version-2 file layouts *)
 Record lay2 := Lay2 {
